@@ -1039,7 +1039,10 @@ Definition render_step (n : node) (c : ctx) (b : buf) : rstate :=
   | NOutput e | NEcho e => write_value (ev c e) c b
   | NAssign x e =>
       match ev c e with
-      | EOk v => mk SDone (set_locals c (dict_set x v (locals c))) b
+      | EOk v =>
+          (* a ForLoop object kept in a local outlives the iteration it was read in *)
+          if has_forloop v then mk SUnmodelled c b
+          else mk SDone (set_locals c (dict_set x v (locals c))) b
       | r => mk (of_eres_status r) c b
       end
   | NCapture x body =>
